@@ -108,7 +108,7 @@ def derive(tid, rules, events):
 
 def run(ctx: Ctx):
     wf = os.environ.get("VERIF_REPO", "/repo") + "/workflow/"
-    ctx.cov["rule"] = "the three rule files as they are; non-trivial = a rule"
+    ctx.cov["rule"] = "the rule files as they are (run_grid + run_sqra, run_grid + run_msm: structure and derived traces; Snakefile, run_orca, run_records: structure); non-trivial = a rule"
     ctx.model("Molgri", "Molgri_quick.cfg", workers=8, note="pipeline model incl. NewProcess (every rule a job of its own)")
     recs, events, flows = [], [], []
     for tid, files in enumerate((["run_grid", "run_sqra"], ["run_grid", "run_msm"])):
@@ -118,6 +118,17 @@ def run(ctx: Ctx):
             rec["rules"] = rules
             derive(tid, rules, events)
             for r in rules:
+                ctx.count(1, nontrivial_key=(files[-1], r["name"]))
+        except Exception as ex:
+            rec["err"] = type(ex).__name__
+        recs.append(rec)
+        flows.append(files[-1])
+    # the remaining rule files: structure only (they drive experiments / ORCA optimisations, no action of the pipeline model)
+    for files in (["Snakefile"], ["run_orca"], ["run_records"]):
+        rec = dict(tid=len(recs), file=files[-1], rules=[], err="")
+        try:
+            rec["rules"] = graph([r for f in files for r in parse(wf + f)])
+            for r in rec["rules"]:
                 ctx.count(1, nontrivial_key=(files[-1], r["name"]))
         except Exception as ex:
             rec["err"] = type(ex).__name__
